@@ -45,12 +45,32 @@ def confirm(prop, k):
             return sid, meta
         ran = []
         nobuild = any(t.startswith(n) or t == n for t in touched for n in NOBUILD)
-        if m and not nobuild:
+        overlay = ''
+        rootseed = nobuild and all('/' not in t for t in touched)
+        if rootseed:
+            # the root package builds once the quic transport import lines
+            # are dropped through a build overlay (found by the C10 seeding
+            # agent); nothing in the worktree is modified
+            ovd = tempfile.mkdtemp(prefix='ov-', dir='/tmp')
+            for src_f, dst_f in (('clusterhost.go', 'clusterhost.go'), ('api/rest/restapi.go', 'restapi.go')):
+                with open(os.path.join(wt, src_f)) as fi, open(os.path.join(ovd, dst_f), 'w') as fo:
+                    fo.writelines(l for l in fi if 'libp2pquic' not in l)
+            json.dump({'Replace': {f'{wt}/clusterhost.go': f'{ovd}/clusterhost.go', f'{wt}/api/rest/restapi.go': f'{ovd}/restapi.go'}}, open(f'{ovd}/overlay.json', 'w'))
+            overlay = f'-overlay {ovd}/overlay.json '
+            mm = re.search(r"-run\s+'?([^'\s]+)'?", demo)
+            m = None
+            if mm:
+                class M:  # minimal match-like object
+                    def __init__(s, a, b): s.a, s.b = a, b
+                    def group(s, i): return (None, s.a, s.b)[i]
+                m = M(mm.group(1), '.')
+            meta['note'] = 'root package: built and tested through a build overlay that drops the quic-transport import lines of clusterhost.go and api/rest/restapi.go (the only reason it does not build on this toolchain)'
+        if m and (not nobuild or rootseed):
             pat, pkg = m.group(1), m.group(2)
-            pkgdir = os.path.join(wt, pkg.lstrip('./'))
+            pkgdir = os.path.join(wt, pkg.lstrip('./')) if pkg != '.' else wt
             demofile = os.path.join(pkgdir, 'zz_seed_demo_test.go')
             shutil.copy(f'{src}/demo_test.go', demofile)
-            rc0, o0 = run(f"go test -vet=off -count=1 -timeout 600s -run '{pat}' {pkg}", wt)
+            rc0, o0 = run(f"go test {overlay}-vet=off -count=1 -timeout 1200s -run '{pat}' {pkg}", wt)
             ran.append(f"clean tree: go test -run '{pat}' {pkg} -> {'PASS' if rc0 == 0 else 'FAIL'}")
             meta['demo_passes_without_change'] = rc0 == 0
             os.remove(demofile)
@@ -59,16 +79,16 @@ def confirm(prop, k):
             if rc != 0:
                 meta['error'] = 'apply: ' + o[-500:]
                 return sid, meta
-            pkgs = sorted(set('./' + os.path.dirname(t) + '/' for t in touched))
-            rcb, ob = run('go build ' + ' '.join(pkgs), wt)
+            pkgs = sorted(set(('./' + os.path.dirname(t) + '/') if '/' in t else '.' for t in touched))
+            rcb, ob = run(f'go build {overlay}' + ' '.join(pkgs), wt)
             meta['compiles'] = rcb == 0
             ran.append(f"patched: go build {' '.join(pkgs)} -> {'ok' if rcb == 0 else 'FAIL'}")
-            rct, ot = run('go test -vet=off -count=1 -timeout 900s ' + ' '.join(pkgs), wt)
+            rct, ot = run(f'go test {overlay}-vet=off -count=1 -timeout 1500s ' + ' '.join(pkgs), wt, timeout=1800)
             flaky = 'TestWindow_Distribution' in ot and ot.count('--- FAIL') <= 2
             meta['existing_tests_pass_with_change'] = rct == 0 or flaky
             ran.append(f"patched: go test {' '.join(pkgs)} -> {'PASS' if rct == 0 else ('PASS (known-flaky TestWindow_Distribution only)' if flaky else 'FAIL')}")
             shutil.copy(f'{src}/demo_test.go', demofile)
-            rc1, o1 = run(f"go test -vet=off -count=1 -timeout 600s -run '{pat}' {pkg}", wt)
+            rc1, o1 = run(f"go test {overlay}-vet=off -count=1 -timeout 1200s -run '{pat}' {pkg}", wt)
             meta['demo_fails_with_change'] = rc1 != 0
             fail_lines = [l for l in o1.splitlines() if '--- FAIL' in l or 'panic:' in l or l.strip().startswith(os.path.basename(demofile))][:6]
             ran.append(f"patched: go test -run '{pat}' {pkg} -> {'FAIL (as required)' if rc1 != 0 else 'PASS (demo does not detect!)'}")
@@ -113,7 +133,7 @@ def main():
             if only and f'{prop}-{k}' not in only and prop not in only:
                 continue
             jobs.append((prop, k))
-    with ThreadPoolExecutor(max_workers=5) as ex:
+    with ThreadPoolExecutor(max_workers=int(os.environ.get('SEED_WORKERS', '3'))) as ex:
         for sid, meta in ex.map(lambda a: confirm(*a), jobs):
             if meta is None:
                 continue
